@@ -244,7 +244,16 @@ def cargo_build(timeout=1500):
         return True, ""
 
 
-def run_lines(binary_args, lines, shards=None, timeout=900):
+def _limit_child():
+    """a runaway case must die quickly instead of eating the machine"""
+    import resource
+    try:
+        resource.setrlimit(resource.RLIMIT_AS, (6 << 30, 6 << 30))
+    except (ValueError, OSError):
+        pass
+
+
+def run_lines(binary_args, lines, shards=None, timeout=900, single_timeout=20):
     """Feed lines to `binary_args` over stdin in parallel shards; returns output lines in order."""
     if not lines:
         return []
@@ -257,7 +266,7 @@ def run_lines(binary_args, lines, shards=None, timeout=900):
         if not chunk:
             continue
         p = subprocess.Popen(binary_args, stdin=subprocess.PIPE, stdout=subprocess.PIPE,
-                             stderr=subprocess.DEVNULL, env=ENV)
+                             stderr=subprocess.DEVNULL, env=ENV, preexec_fn=_limit_child)
         procs.append((p, chunk))
     # write and read with threads to avoid pipe deadlocks
     import threading
@@ -284,8 +293,12 @@ def run_lines(binary_args, lines, shards=None, timeout=900):
             # a crash of the process itself (abort / stack overflow): re-run one by one
             res = []
             for c in chunk:
-                rc, o, e = sh(binary_args, input=(c + "\n").encode("utf-8"), timeout=60)
-                o = o.strip()
+                try:
+                    pp = subprocess.run(binary_args, input=(c + "\n").encode("utf-8"), capture_output=True,
+                                        timeout=single_timeout, env=ENV, preexec_fn=_limit_child)
+                    rc, o = pp.returncode, pp.stdout.decode("utf-8", "replace").strip()
+                except subprocess.TimeoutExpired:
+                    rc, o = 124, ""
                 res.append(o if o and rc == 0 else json.dumps({"crash": rc}))
         out.extend(res)
     return out
